@@ -15,43 +15,44 @@ import (
 )
 
 type Req struct {
-	ID        int        `json:"id"`
-	Op        string     `json:"op"` // output | walk | mkdir | verify
-	Doc       string     `json:"doc"`
-	Massive   bool       `json:"massive,omitempty"`
-	Format    string     `json:"format,omitempty"` // "", json, yaml, toml
-	DryRun    bool       `json:"dryrun,omitempty"`
-	NoIter    bool       `json:"noiter,omitempty"`
-	Branches  []string   `json:"branches,omitempty"` // LD LI MD MI
-	Exts      []string   `json:"exts,omitempty"`
-	Strict    bool       `json:"strict,omitempty"`
-	Jail      bool       `json:"jail,omitempty"`   // mkdir/verify: run inside a fresh temp dir and report it
-	Target    string     `json:"target,omitempty"` // explicit target directory (the parent owns the jail)
-	Route     string     `json:"route,omitempty"`  // "" / "md": From-Markdown; "root": From-Root (tree built from Items)
-	Items     []Item     `json:"items,omitempty"`
-	Alias     bool       `json:"alias,omitempty"`     // use the deprecated alias of the entry point
-	Leaks     bool       `json:"leaks,omitempty"`     // after the call, wait for gtree goroutines to settle and report those left
-	ReadFail  *int       `json:"readfail,omitempty"`  // the reader delivers this many bytes and then fails with a sentinel error
-	ReadOnce  bool       `json:"readonce,omitempty"`  // ... once: read again, it delivers the rest of the document (a timeout, not a broken pipe)
-	WFault    *WFault    `json:"wfault,omitempty"`    // the writer refuses one Write call
-	OptMode   bool       `json:"optmode,omitempty"`   // the options of the call are exactly OptSeq (possibly empty)
-	OptSeq    []string   `json:"optseq,omitempty"`    // the options of the call, in this order (Options.tla's tokens), after WithTargetDir(jail/A); jail holds A and B
-	PreFiles  []string   `json:"prefiles,omitempty"`  // OptSeq mode: regular files made below the jail before the call
-	ErrWrap   string     `json:"errwrap,omitempty"`   // the injected reader/writer error also wraps "canceled" (context.Canceled) or "deadline"
-	Procs     int        `json:"procs,omitempty"`     // GOMAXPROCS for this call (0 = leave)
-	Yield     int        `json:"yield,omitempty"`     // reader, writer and callbacks yield / sleep (1 = Gosched, n>1 = n microseconds)
-	CancelAt  *int       `json:"cancelat,omitempty"`  // cancel the caller's context when the reader has delivered this many bytes (-1: before the call)
-	CtxKind   string     `json:"ctxkind,omitempty"`   // "" : the caller's context ends by cancel(); "deadline": it ends as an expired deadline (Err() = DeadlineExceeded)
-	FailVisit int        `json:"failvisit,omitempty"` // walk: the callback fails at its n-th call (counted over all goroutines)
-	FailNames []string   `json:"failnames,omitempty"` // walk: the callback fails at every node with one of these names
-	PreDoc    string     `json:"predoc,omitempty"`    // mkdir/verify in a worker-owned jail: directories made (simple mode) before the call
-	NodeIdx   int        `json:"nodeidx,omitempty"`   // From-Root: operate on the k-th node in pre-order instead of the root (-1: nil)
-	PreOps    []string   `json:"preops,omitempty"`    // From-Root: operations performed on the same tree first ("output", "walk", "walkiter", "json", "massive-output", "mkdir-elsewhere")
-	Par       []Req      `json:"par,omitempty"`       // run these requests at the same time (one goroutine each) in this worker; the reply carries theirs in Sub
-	Stall     *Stall     `json:"stall,omitempty"`     // back-pressure: the sink is held until the splitter is handing over its last block, then something happens
-	Record    bool       `json:"record,omitempty"`    // record the hook events of this call
-	Delays    int64      `json:"delays,omitempty"`    // seed for random delays at hook points (0 = none)
-	Plan      []PlanStep `json:"plan,omitempty"`      // gate: hold goroutines at hook points until the plan allows them
+	ID          int        `json:"id"`
+	Op          string     `json:"op"` // output | walk | mkdir | verify
+	Doc         string     `json:"doc"`
+	Massive     bool       `json:"massive,omitempty"`
+	Format      string     `json:"format,omitempty"` // "", json, yaml, toml
+	DryRun      bool       `json:"dryrun,omitempty"`
+	NoIter      bool       `json:"noiter,omitempty"`
+	Branches    []string   `json:"branches,omitempty"` // LD LI MD MI
+	Exts        []string   `json:"exts,omitempty"`
+	Strict      bool       `json:"strict,omitempty"`
+	Jail        bool       `json:"jail,omitempty"`        // mkdir/verify: run inside a fresh temp dir and report it
+	Target      string     `json:"target,omitempty"`      // explicit target directory (the parent owns the jail)
+	TargetSpell string     `json:"targetspell,omitempty"` // Target handed over in another spelling of the same directory, relative to its grandparent (the worker changes into it): "slash" p/t/, "dot" ./p/t, "dslash" p//t, "dotin" p/./t
+	Route       string     `json:"route,omitempty"`       // "" / "md": From-Markdown; "root": From-Root (tree built from Items)
+	Items       []Item     `json:"items,omitempty"`
+	Alias       bool       `json:"alias,omitempty"`     // use the deprecated alias of the entry point
+	Leaks       bool       `json:"leaks,omitempty"`     // after the call, wait for gtree goroutines to settle and report those left
+	ReadFail    *int       `json:"readfail,omitempty"`  // the reader delivers this many bytes and then fails with a sentinel error
+	ReadOnce    bool       `json:"readonce,omitempty"`  // ... once: read again, it delivers the rest of the document (a timeout, not a broken pipe)
+	WFault      *WFault    `json:"wfault,omitempty"`    // the writer refuses one Write call
+	OptMode     bool       `json:"optmode,omitempty"`   // the options of the call are exactly OptSeq (possibly empty)
+	OptSeq      []string   `json:"optseq,omitempty"`    // the options of the call, in this order (Options.tla's tokens), after WithTargetDir(jail/A); jail holds A and B
+	PreFiles    []string   `json:"prefiles,omitempty"`  // OptSeq mode: regular files made below the jail before the call
+	ErrWrap     string     `json:"errwrap,omitempty"`   // the injected reader/writer error also wraps "canceled" (context.Canceled) or "deadline"
+	Procs       int        `json:"procs,omitempty"`     // GOMAXPROCS for this call (0 = leave)
+	Yield       int        `json:"yield,omitempty"`     // reader, writer and callbacks yield / sleep (1 = Gosched, n>1 = n microseconds)
+	CancelAt    *int       `json:"cancelat,omitempty"`  // cancel the caller's context when the reader has delivered this many bytes (-1: before the call)
+	CtxKind     string     `json:"ctxkind,omitempty"`   // "" : the caller's context ends by cancel(); "deadline": it ends as an expired deadline (Err() = DeadlineExceeded)
+	FailVisit   int        `json:"failvisit,omitempty"` // walk: the callback fails at its n-th call (counted over all goroutines)
+	FailNames   []string   `json:"failnames,omitempty"` // walk: the callback fails at every node with one of these names
+	PreDoc      string     `json:"predoc,omitempty"`    // mkdir/verify in a worker-owned jail: directories made (simple mode) before the call
+	NodeIdx     int        `json:"nodeidx,omitempty"`   // From-Root: operate on the k-th node in pre-order instead of the root (-1: nil)
+	PreOps      []string   `json:"preops,omitempty"`    // From-Root: operations performed on the same tree first ("output", "walk", "walkiter", "json", "massive-output", "mkdir-elsewhere")
+	Par         []Req      `json:"par,omitempty"`       // run these requests at the same time (one goroutine each) in this worker; the reply carries theirs in Sub
+	Stall       *Stall     `json:"stall,omitempty"`     // back-pressure: the sink is held until the splitter is handing over its last block, then something happens
+	Record      bool       `json:"record,omitempty"`    // record the hook events of this call
+	Delays      int64      `json:"delays,omitempty"`    // seed for random delays at hook points (0 = none)
+	Plan        []PlanStep `json:"plan,omitempty"`      // gate: hold goroutines at hook points until the plan allows them
 }
 
 // Event is one recorded hook event.
